@@ -222,6 +222,19 @@ func main() {
 		}
 	case "mutate":
 		runMutate(repo, verif, pos)
+	case "mutasm":
+		runMutAsm(repo, verif, pos)
+	case "asmlive":
+		c := NewCtx("adhoc", tier, repo, verif)
+		a := c.Asm()
+		var ns []string
+		for n := range a.Funcs {
+			ns = append(ns, n)
+		}
+		sort.Strings(ns)
+		for _, n := range ns {
+			fmt.Printf("%-48s in=%v\n", n, asmLiveIn(a.Funcs[n]))
+		}
 	case "check":
 		if len(pos) != 1 {
 			usage()
